@@ -167,6 +167,9 @@ static void Array_Push(var self, var obj);
 static void Array_Assign(var self, var obj) {
   struct Array* a = self;
 
+  /* Assigned from itself: nothing to do (and nothing to clear first) */
+  if (self is obj) { return; }
+
   Array_Clear(self);
   
   a->type = implements_method(obj, Iter, iter_type) ? iter_type(obj) : Ref;
